@@ -46,7 +46,7 @@ CONSTANT Mutant    \* "none": glom as repaired;  otherwise a named deviation of 
 
 N(k, a, c) == [k |-> k, a |-> a, c |-> c]
 
-GlomitKinds == {"skp", "nest", "new", "same", "copy", "coalskip", "fail", "smiss", "iter", "refdef", "refuse", "vbind", "vset", "vread", "mark", "group", "stop", "nbind", "sbind2", "mdict2", "probe", "read", "sbind", "abind", "gbind", "gread", "pipe", "coal",
+GlomitKinds == {"starq", "skp", "nest", "new", "same", "copy", "coalskip", "fail", "smiss", "iter", "refdef", "refuse", "vbind", "vset", "vread", "mark", "group", "stop", "nbind", "sbind2", "mdict2", "probe", "read", "sbind", "abind", "gbind", "gread", "pipe", "coal",
                 "or", "and", "not", "switch", "mdict", "auto", "fill", "match", "spec"}
 ModeOf(k) == CASE k = "auto" -> "AUTO" [] k = "fill" -> "FILL" [] k = "match" -> "MATCH" [] k = "group" -> "GROUP"
 ModeKinds == {"auto", "fill", "match", "group"}
@@ -212,6 +212,9 @@ Run(st0, par, node, path, tgt) ==
           \* a chain step that answers SKIP (only used as a step of tup / pipe): the chain goes on with the target
           \* it had, and the step is a link of the chain like any other
           [] node.k = "skp" -> Res(st2, "ok", tgt, 0, 0)
+          \* T.__star__()[<argument spec that fails on every element>]: every element is a miss, the result is
+          \* a new empty list
+          [] node.k = "starq" -> Res([st2 EXCEPT !.conts = Append(@, [f |-> f, items |-> <<>>])], "ok", <<-1, f>>, 0, 0)
           [] node.k = "refdef" ->      \* Ref(name, sub): names sub in this frame, then evaluates it
                Run(Bind(st2, f, "ref:" \o node.a, <<"r">> \o path), f, node.c[1], Append(path, 1), tgt)
           [] node.k = "refuse" ->      \* Ref(name): evaluates the sub-spec of the nearest definition in scope
